@@ -28,7 +28,7 @@ package ice
 //@   props C05
 //@   requires a != nil
 //@   pure
-//@   ensures (a.isControlling != 0) == (result == 0)
+//@   ensures result == ite(a.isControlling != 0, Controlling, Controlled)
 
 //@ func (*Agent).setSelector
 //@   props C05 C03
